@@ -5,7 +5,7 @@ from .c04 import admissible
 
 PROP = "C05"
 LEAN_MODULE = "RSV.Props.C05all"
-RULE = ("proof: for a fixed erasure set the reconstruct schedule is symbol-local, xor-linear and scratch-independent (arbitrary step "
+RULE = ("proof: C05_leo8/16_reconstruct_all - the schedule model restores every erased shard for every admissible (d,p) and every erasure set of size <= p (LCH decoder proved: FWHT locator, novel-basis derivative, refinement of the loop schedules); for a fixed erasure set the reconstruct schedule is symbol-local, xor-linear and scratch-independent (arbitrary step "
         "lists), present shards are never written, data-only mode never writes parity, the error-locator table is a function of "
         "the erasure set (so caching it by erasure set is sound - the key is the complete set since fix f76f5f8); argument "
         "checks (too few shards) by the API model. Correspondence: Reconstruct / ReconstructData / ReconstructSome of the real "
@@ -13,9 +13,9 @@ RULE = ("proof: for a fixed erasure set the reconstruct schedule is symbol-local
         "small GF8 and forced-GF16 configurations, seeded larger ones incl. the <= p/4 region and >= 64 KiB shard sets that enable "
         "the bit-field shortcut, 32 KiB work-chunk straddling sizes, three encodings of 'missing', cache on/off. "
         "A case = one op line; non-trivial = at least one shard missing")
-ASSUMPTIONS = ["that the formal-derivative decoder inverts the code for EVERY erasure set is established per explored (d,p,E), "
-               "complete over contents by linearity, not by a general theorem",
-               "the bit-field-pruned FFT equals the full FFT on the outputs read: by correspondence"]
+ASSUMPTIONS = ["the general theorem (C05_leo8/16_reconstruct_all) is about the schedule model with the full FFT; "
+               "the bit-field-pruned FFT of the package equals it on the outputs read: by correspondence",
+               "the Go code equals the model: by correspondence (this check, complete table comparison, C08 kernels)"]
 TRUSTED = []
 
 
